@@ -3,6 +3,8 @@ package main
 // C01: generator of RDB files (own serializer, independent of the repo) and runner of the real loader.
 
 import (
+	"bufio"
+	"bytes"
 	"fmt"
 	"io"
 	"math/rand"
@@ -630,40 +632,51 @@ func (d *delivery) Read(p []byte) (int, error) {
 	return n, nil
 }
 
-func runC01(f []string) string {
-	data := unhx(f[3])
+// c01Direct: Header, NextBinEntry until nil, Footer on a loader over rd; unread() = bytes of the file not yet delivered
+func c01Direct(rd io.Reader, unread func() int) string {
 	var sb strings.Builder
-	switch f[0] {
-	case "rdb":
-		rd := newDelivery(data, f[2])
-		l := rdb.NewLoader(rd)
-		if err := l.Header(); err != nil {
-			return "h=err"
-		}
-		sb.WriteString("h=ok")
-		for {
-			e, err := l.NextBinEntry()
-			if err != nil {
-				sb.WriteString(" end=err")
-				return sb.String()
-			}
-			if e == nil {
-				break
-			}
-			fmt.Fprintf(&sb, " E[%d,%s,%d,%d,%d,%d,%d,%d,%s]", e.DB, hx(e.Key), e.Type, e.ExpireAt, e.IdleTime, e.Freq, e.NeedReadLen, e.RealMemberCount, valRepr(e.Value))
-		}
-		if err := l.Footer(); err != nil {
+	l := rdb.NewLoader(rd)
+	if err := l.Header(); err != nil {
+		return "h=err"
+	}
+	sb.WriteString("h=ok")
+	for {
+		e, err := l.NextBinEntry()
+		if err != nil {
 			sb.WriteString(" end=err")
 			return sb.String()
 		}
-		fmt.Fprintf(&sb, " end=ok:unread=%d", rd.Len())
+		if e == nil {
+			break
+		}
+		fmt.Fprintf(&sb, " E[%d,%s,%d,%d,%d,%d,%d,%d,%s]", e.DB, hx(e.Key), e.Type, e.ExpireAt, e.IdleTime, e.Freq, e.NeedReadLen, e.RealMemberCount, valRepr(e.Value))
+	}
+	if err := l.Footer(); err != nil {
+		sb.WriteString(" end=err")
 		return sb.String()
+	}
+	fmt.Fprintf(&sb, " end=ok:unread=%d", unread())
+	return sb.String()
+}
+
+func runC01(f []string) string {
+	data := unhx(f[3])
+	switch f[0] {
+	case "rdb":
+		rd := newDelivery(data, f[2])
+		return c01Direct(rd, rd.Len)
 	case "rdbchan":
 		// an error on the channel path aborts the process from another goroutine: only take it when the
 		// direct path accepts the file (otherwise report the direct result, which then differs from the model)
 		direct := runC01([]string{"rdb", f[1], f[2], f[3]})
 		if !strings.Contains(direct, "end=ok") {
 			return direct
+		}
+		// … and when the loader accepts it through the same kind of reader the channel path puts in front of it
+		// (a bufio.Reader whose refills split the loader's requests)
+		br := bufio.NewReaderSize(bytes.NewReader(data), c01ChanBuf)
+		if viaBufio := c01Direct(br, func() int { return -1 }); !strings.Contains(viaBufio, "end=ok") {
+			return viaBufio
 		}
 		return runC01chan(data)
 	}
